@@ -9,6 +9,7 @@ a sorted permutation (Go's unstable pdqsort is one).
 Only the property theorems and their non-vacuity examples live in this file.
 -/
 import SemaModel.C05.Lemmas
+import SemaModel.Generated.FactsC05
 namespace Sema.C05
 
 variable {T : Type} [DecidableEq T]
@@ -118,6 +119,78 @@ theorem C05_scratch (c : Corpus T) (h : c.WF) :
   rw [filter_key_nodup h.nodup]
   unfold Corpus.get
   cases alookup c id <;> simp [alookup]
+
+/-! ### rewrites that keep some statistics, and returns to an earlier text
+
+`C05_maintain` already covers every rewrite.  The corollaries below spell out the cases in which an
+implementation is tempted to skip work because "nothing changed": the record written for a non-empty
+text depends on the new tokens only; the last text written to a point determines what a search sees,
+whatever came in between; returning to an earlier text returns to the earlier observable index;
+rotating texts between documents keeps corpus size and every document frequency and still exchanges
+the records (so none of these statistics can stand in for a comparison of the records). -/
+
+/-- the record stored for a point whose new text has tokens is computed from the new tokens alone —
+length = number of tokens, frequency of `t` = occurrences of `t` — whatever record (same
+vocabulary, same length, …) the index held before.  No invariant is needed. -/
+theorem C05_rewrite_record (ix : Index T) (id : Id) (toks : List T) (h : toks ≠ []) :
+    ∃ r, alookup (processDoc ix (id, toks)).docs id = some r ∧ r.length = toks.length ∧
+      ∀ t, freqOf r t = toks.count t := by
+  obtain ⟨a, l, rfl⟩ := List.exists_cons_of_ne_nil h
+  refine ⟨⟨freqsOf (a :: l), (a :: l).length⟩, ?_, rfl, fun t => freqOf_freqsOf _ _ t⟩
+  unfold processDoc
+  cases hd : alookup ix.docs id <;> simp [hd, alookup_aput]
+
+/-- only the last text written to a point counts: writing `t1` and then `t2` leaves what a search
+can observe exactly as writing `t2` directly (in one batch or across batches; `t1`, `t2` may be
+empty = blank-out / removal). -/
+theorem C05_last_write_wins {ix : Index T} {c : Corpus T} (h : TextInv ix c) (id : Id) (t1 t2 : List T) :
+    ObsEq (processDoc (processDoc ix (id, t1)) (id, t2)) (processDoc ix (id, t2)) := by
+  apply C05_inv_unique (C05_maintain (C05_maintain h id t1) id t2) (C05_maintain h id t2)
+  intro x
+  simp only [Corpus.get_set]
+  by_cases hx : id = x <;> simp [hx]
+
+/-- returning to an earlier state: after any detour `mid` (another text, a blank-out, a removal),
+writing back the tokens the document had gives back the observable index it had; with
+`mid = c.get id` this is "rewriting a document with the same tokens changes nothing". -/
+theorem C05_return {ix : Index T} {c : Corpus T} (h : TextInv ix c) (id : Id) (mid : List T) :
+    ObsEq (processDoc (processDoc ix (id, mid)) (id, c.get id)) ix := by
+  apply C05_inv_unique (C05_maintain (C05_maintain h id mid) id (c.get id)) h
+  intro x
+  simp only [Corpus.get_set]
+  by_cases hx : id = x <;> simp [hx]
+
+/-- exchanging the texts of two documents keeps the corpus size and **every** document frequency,
+and exchanges the two documents' token lists (hence, by `C05_maintain` + `C05_stats`, their records
+and scores): unchanged corpus statistics do not mean unchanged records. -/
+theorem C05_rotate {c : Corpus T} (h : c.WF) (a b : Id) (hab : a ≠ b) :
+    let c' := (c.set a (c.get b)).set b (c.get a)
+    specNumDocs c' = specNumDocs c ∧ (∀ t, specDf c' t = specDf c t) ∧
+    c'.get a = c.get b ∧ c'.get b = c.get a ∧ (∀ id, id ≠ a → id ≠ b → c'.get id = c.get id) := by
+  intro c'
+  have h1 := Corpus.WF_set h a (c.get b)
+  have hb1 : (c.set a (c.get b)).get b = c.get b := by rw [Corpus.get_set]; simp [hab]
+  refine ⟨?_, ?_, ?_, ?_, ?_⟩
+  · have e1 := Corpus.length_set h a (c.get b)
+    have e2 := Corpus.length_set h1 b (c.get a)
+    rw [hb1] at e2
+    show ((c.set a (c.get b)).set b (c.get a)).length = c.length
+    generalize (if c.get a = [] then 0 else 1) = x at e1 e2
+    generalize (if c.get b = [] then 0 else 1) = y at e1 e2
+    omega
+  · intro t
+    have e1 := specDf_set h a (c.get b) t
+    have e2 := specDf_set h1 b (c.get a) t
+    rw [hb1] at e2
+    show specDf ((c.set a (c.get b)).set b (c.get a)) t = specDf c t
+    omega
+  · show ((c.set a (c.get b)).set b (c.get a)).get a = c.get b
+    rw [Corpus.get_set, Corpus.get_set]; simp [Ne.symm hab]
+  · show ((c.set a (c.get b)).set b (c.get a)).get b = c.get a
+    rw [Corpus.get_set]; simp
+  · intro id ha hb
+    show ((c.set a (c.get b)).set b (c.get a)).get id = c.get id
+    rw [Corpus.get_set, Corpus.get_set]; simp [Ne.symm ha, Ne.symm hb]
 
 /-! ### the order inside a batch
 
@@ -372,5 +445,305 @@ example : ∃ set rs,
 example : ([(2, [7]), (3, [8])] : List (Doc Nat)).Perm [(3, [8]), (2, [7])] ∧
     (([(3, [8]), (2, [7])] : List (Doc Nat)).map (·.1)).Nodup := by
   refine ⟨List.Perm.swap _ _ _, by decide⟩
+
+/-- **the statistics a shortcut might compare do not determine the score.**  Rewriting
+`[1,1,2]` into `[1,2,2]` keeps the vocabulary, the length, the multiset of frequencies, the corpus
+size and every document frequency — and changes the score of the document for the query `[1]`. -/
+theorem C05_preserved_statistics_witness :
+    let old : List Nat := [1, 1, 2]
+    let new : List Nat := [1, 2, 2]
+    let c : Corpus Nat := [(5, old), (6, [1, 3])]
+    let c' := c.set 5 new
+    (∀ t, t ∈ old ↔ t ∈ new) ∧ old.length = new.length ∧
+    ((dedup old).map old.count).Perm ((dedup new).map new.count) ∧
+    specNumDocs c' = specNumDocs c ∧ (∀ t, specDf c' t = specDf c t) ∧
+    specScore exOps c' [1] 5 ≠ specScore exOps c [1] 5 := by
+  intro old new c c'
+  have hwf : c.WF := ⟨by decide, by decide⟩
+  have hv : ∀ t, t ∈ old ↔ t ∈ new := by intro t; simp [old, new]
+  refine ⟨hv, rfl, by decide, by decide, ?_, by decide⟩
+  intro t
+  have e := specDf_set hwf 5 new t
+  have hg : c.get 5 = old := by decide
+  rw [hg] at e
+  show specDf (c.set 5 new) t = specDf c t
+  by_cases ht : t ∈ old
+  · have := (hv t).mp ht; simp [ht, this] at e; exact e
+  · have : t ∉ new := fun hn => ht ((hv t).mpr hn)
+    simp [ht, this] at e; exact e
+
+
+/-- `C05_last_write_wins` / `C05_return` on an index reached through a history; `C05_rotate` on a
+concrete corpus with two different documents -/
+example : ObsEq (processDoc (processDoc (exHistory.foldl applyBatch ({} : Index Nat)) (2, [])) (2, [5, 5, 9]))
+    (processDoc (exHistory.foldl applyBatch ({} : Index Nat)) (2, [5, 5, 9])) :=
+  C05_last_write_wins (C05_history exHistory) 2 [] [5, 5, 9]
+
+example : (exHistory.foldl Corpus.apply ([] : Corpus Nat)).get 3 = [7, 7, 7] ∧
+    ObsEq (processDoc (processDoc (exHistory.foldl applyBatch ({} : Index Nat)) (3, [])) (3, [7, 7, 7]))
+      (exHistory.foldl applyBatch ({} : Index Nat)) :=
+  ⟨by decide, C05_return (C05_history exHistory) 3 []⟩
+
+example : Corpus.WF ([(1, [4, 4, 5]), (2, [5, 6])] : Corpus Nat) ∧ (1 : Id) ≠ 2 ∧
+    ([(1, [4, 4, 5]), (2, [5, 6])] : Corpus Nat).get 1 ≠ ([(1, [4, 4, 5]), (2, [5, 6])] : Corpus Nat).get 2 :=
+  ⟨⟨by decide, by decide⟩, by decide, by decide⟩
+
+/-! ### tie (T2): the text the model was transcribed from
+
+`tools/facts_c05` regenerates, on every check, the statement skeleton (simple statements and
+headers of compound statements, comments and `if err != nil { return … }` plumbing dropped) of every
+function `Model.lean` transcribes.  The skeletons below are the ones the model was written from: an
+added early return, a skipped change, a narrowed posting set, a changed formula or write-back
+condition alters a skeleton and stops the build until model and text have been compared again.
+(The correspondence run ties the *behaviour*; this ties the *text*, also where no generated input
+happens to exercise a change.) -/
+
+/-- shard/index/text/text.go `indexText.processAnalysedDoc`: the four arms: skip / insert / delete / update (Model.processDoc) -/
+example : Gen.FactsC05.processAnalysedDoc = [
+  "docItem, err := index.docCache.Get(ad.Id)",
+  "if err != cache.ErrNotFound && err != nil {",
+  "return fmt.Errorf(\"error getting doc cache item: %w\", err)",
+  "}",
+  "exists := err != cache.ErrNotFound",
+  "switch {",
+  "case !exists && ad.Length == 0:",
+  "case !exists && ad.Length > 0:",
+  "terms := make(map[string]Term)",
+  "for term, frequency := range ad.Frequencies {",
+  "terms[term] = Term{ Frequency: frequency, }",
+  "setItem, err := index.setCache.Get(term)",
+  "setItem.isDirty = setItem.set.CheckedAdd(ad.Id) || setItem.isDirty",
+  "}",
+  "newDoc := docCacheItem{ Terms: terms, Length: ad.Length, }",
+  "index.docCache.Put(ad.Id, newDoc)",
+  "index.numDocs++",
+  "case exists && ad.Length == 0:",
+  "for term := range docItem.Terms {",
+  "setItem, err := index.setCache.Get(term)",
+  "setItem.isDirty = setItem.set.CheckedRemove(ad.Id) || setItem.isDirty",
+  "}",
+  "if err := index.docCache.Delete(ad.Id); err != nil {",
+  "return fmt.Errorf(\"error deleting doc cache item: %w\", err)",
+  "}",
+  "index.numDocs--",
+  "case exists && ad.Length > 0:",
+  "for term := range docItem.Terms {",
+  "if _, ok := ad.Frequencies[term]; ok {",
+  "continue",
+  "}",
+  "setItem, err := index.setCache.Get(term)",
+  "setItem.isDirty = setItem.set.CheckedRemove(ad.Id) || setItem.isDirty",
+  "}",
+  "terms := make(map[string]Term)",
+  "for term, freq := range ad.Frequencies {",
+  "terms[term] = Term{ Frequency: freq, }",
+  "if _, ok := docItem.Terms[term]; ok {",
+  "continue",
+  "}",
+  "setItem, err := index.setCache.Get(term)",
+  "setItem.isDirty = setItem.set.CheckedAdd(ad.Id) || setItem.isDirty",
+  "}",
+  "docItem.Terms = terms",
+  "docItem.Length = ad.Length",
+  "index.docCache.Put(ad.Id, docItem)",
+  "default:",
+  "return fmt.Errorf(\"unexpected state: exists: %v, analysed doc: %+v\", exists, ad)",
+  "}",
+  "return nil"
+] := rfl
+
+/-- shard/index/text/text.go `indexText.parallelAnalyse`: tokens -> frequencies and length; one worker per id (Model.freqsOf, C05_order) -/
+example : Gen.FactsC05.parallelAnalyse = [
+  "numWorkers := max(runtime.NumCPU()-1, 1)",
+  "ins := make([]chan Document, numWorkers)",
+  "for i := range ins {",
+  "ins[i] = make(chan Document)",
+  "}",
+  "go func() { defer func() { for _, c := range ins { close(c) } }() for doc := range in { select { case ins[doc.Id%uint64(numWorkers)] <- doc: case <-ctx.Done(): return } } }()",
+  "outs := make([]<-chan analysedDocument, numWorkers)",
+  "errCs := make([]<-chan error, numWorkers)",
+  "for i := 0; i < numWorkers; i++ {",
+  "out, errC := utils.TransformWithContext(ctx, ins[i], func(doc Document) (ad analysedDocument, skip bool, err error) { tokens, err := index.analyser.Analyse(doc.Text) if err != nil { return } freq := make(map[string]int) for _, t := range tokens { freq[t.Term]++ } ad.Id = doc.Id ad.Frequencies = freq ad.Length = len(tokens) return })",
+  "outs[i] = out",
+  "errCs[i] = errC",
+  "}",
+  "return utils.MergeWithContext(ctx, outs...), utils.MergeErrorsWithContext(ctx, errCs...)"
+] := rfl
+
+/-- shard/index/text/text.go `indexText.flush`: write-back of _numDocuments and both caches (Model.flush) -/
+example : Gen.FactsC05.flush = [
+  "numDocs := index.numDocs",
+  "if err := index.bucket.Put([]byte(numDocumentsKey), conversion.Uint64ToBytes(numDocs)); err != nil {",
+  "return fmt.Errorf(\"error putting num documents to bucket: %w\", err)",
+  "}",
+  "if err := index.setCache.Flush(); err != nil {",
+  "return fmt.Errorf(\"error flushing set cache: %w\", err)",
+  "}",
+  "if err := index.docCache.Flush(); err != nil {",
+  "return fmt.Errorf(\"error flushing doc cache: %w\", err)",
+  "}",
+  "return nil"
+] := rfl
+
+/-- shard/index/text/text.go `indexText.Search`: term set, FastAnd/FastOr, pre-filter, tf-idf, sort, limit cut (Model.matchSet, scoreDoc, searchWith) -/
+example : Gen.FactsC05.search = [
+  "index.mu.Lock()",
+  "defer index.mu.Unlock()",
+  "tokens, err := index.analyser.Analyse(options.Value)",
+  "queryTerms := make(map[string]struct{})",
+  "for _, token := range tokens {",
+  "queryTerms[token.Term] = struct{}{}",
+  "}",
+  "sets := make([]*roaring64.Bitmap, 0, len(queryTerms))",
+  "for term := range queryTerms {",
+  "item, err := index.setCache.Get(term)",
+  "sets = append(sets, item.set)",
+  "}",
+  "var finalSet *roaring64.Bitmap",
+  "if options.Operator == models.OperatorContainsAll {",
+  "finalSet = roaring64.FastAnd(sets...)",
+  "} else {",
+  "finalSet = roaring64.FastOr(sets...)",
+  "}",
+  "if filter != nil {",
+  "finalSet = roaring64.And(finalSet, filter)",
+  "}",
+  "weight := float32(1)",
+  "if options.Weight != nil {",
+  "weight = *options.Weight",
+  "}",
+  "results := make([]models.SearchResult, 0, finalSet.GetCardinality())",
+  "it := finalSet.Iterator()",
+  "for ; it.HasNext();  {",
+  "docId := it.Next()",
+  "docItem, err := index.docCache.Get(docId)",
+  "score := float32(0)",
+  "for term := range queryTerms {",
+  "freq := 0",
+  "if termItem, ok := docItem.Terms[term]; ok {",
+  "freq = termItem.Frequency",
+  "}",
+  "tf := float32(freq) / float32(docItem.Length)",
+  "termSetItem, _ := index.setCache.Get(term)",
+  "idf := math.Log10(float64(index.numDocs) / float64(termSetItem.set.GetCardinality()+1))",
+  "score += tf * float32(idf)",
+  "}",
+  "sr := models.SearchResult{ NodeId: docId, Score: &score, HybridScore: score * weight, }",
+  "results = append(results, sr)",
+  "}",
+  "slices.SortFunc(results, func(a, b models.SearchResult) int { return cmp.Compare(*b.Score, *a.Score) })",
+  "if len(results) > options.Limit {",
+  "finalSet.Clear()",
+  "results = results[:options.Limit]",
+  "for _, r := range results {",
+  "finalSet.Add(r.NodeId)",
+  "}",
+  "}",
+  "return finalSet, results, nil"
+] := rfl
+
+/-- shard/index/text/text.go `setCacheItem.CheckAndClearDirty`: a posting is written back iff it was changed -/
+example : Gen.FactsC05.setCheckAndClearDirty = [
+  "if si.isDirty {",
+  "si.isDirty = false",
+  "return true",
+  "}",
+  "return false"
+] := rfl
+
+/-- shard/index/text/text.go `setCacheItem.ReadFrom`: an absent posting key is the empty set (Model.getSet) -/
+example : Gen.FactsC05.setReadFrom = [
+  "v := bucket.Get(termKey(term))",
+  "rSet := roaring64.New()",
+  "if v != nil {",
+  "if _, err := rSet.ReadFrom(bytes.NewReader(v)); err != nil {",
+  "return nil, fmt.Errorf(\"error reading set from bytes: %w\", err)",
+  "}",
+  "}",
+  "item := &setCacheItem{ set: rSet, }",
+  "return item, nil"
+] := rfl
+
+/-- shard/index/text/text.go `setCacheItem.WriteTo`: an empty posting loses its key (Model.flush) -/
+example : Gen.FactsC05.setWriteTo = [
+  "if si.set.IsEmpty() {",
+  "if err := bucket.Delete(termKey(term)); err != nil {",
+  "return fmt.Errorf(\"error deleting term set from bucket: %w\", err)",
+  "}",
+  "return nil",
+  "}",
+  "setBytes, err := si.set.ToBytes()",
+  "if err := bucket.Put(termKey(term), setBytes); err != nil {",
+  "return fmt.Errorf(\"error putting term set to bucket: %w\", err)",
+  "}",
+  "return nil"
+] := rfl
+
+/-- shard/index/text/text.go `docCacheItem.ReadFrom`: an absent record is ErrNotFound (`exists` in processAnalysedDoc) -/
+example : Gen.FactsC05.docReadFrom = [
+  "v := bucket.Get(documentKey(id))",
+  "if v == nil {",
+  "err = cache.ErrNotFound",
+  "return",
+  "}",
+  "err = msgpack.Unmarshal(v, &item)",
+  "return"
+] := rfl
+
+/-- shard/index/text/text.go `docCacheItem.WriteTo`: record write-back -/
+example : Gen.FactsC05.docWriteTo = [
+  "if dc.Length == 0 {",
+  "if err := bucket.Delete(documentKey(id)); err != nil {",
+  "return fmt.Errorf(\"error deleting doc cache item from bucket: %w\", err)",
+  "}",
+  "return nil",
+  "}",
+  "val, err := msgpack.Marshal(dc)",
+  "if err := bucket.Put(documentKey(id), val); err != nil {",
+  "return fmt.Errorf(\"error putting doc cache item to bucket: %w\", err)",
+  "}",
+  "return nil"
+] := rfl
+
+/-- shard/index/dispatch.go `preProcessText`: every change that reaches the drain is sent on; absent new text = empty text (Model.dispatchText) -/
+example : Gen.FactsC05.preProcessText = [
+  "doc.Id = change.nodeId",
+  "if change.newData != nil {",
+  "text, ok := change.newData.(string)",
+  "if !ok {",
+  "err = fmt.Errorf(\"could not cast new text data: %v\", change.newData)",
+  "return",
+  "}",
+  "doc.Text = text",
+  "}",
+  "return"
+] := rfl
+
+/-- shard/index/utils.go `getOperation`: absent/absent is the only skipped combination (Model.dispatchText) -/
+example : Gen.FactsC05.getOperation = [
+  "prevProp, err = getPropertyFromBytes(dec, prevData, propertyName)",
+  "if err != nil {",
+  "err = fmt.Errorf(\"could not get previous property %s: %w\", propertyName, err)",
+  "return",
+  "}",
+  "currentProp, err = getPropertyFromBytes(dec, currentData, propertyName)",
+  "if err != nil {",
+  "err = fmt.Errorf(\"could not get new property %s: %w\", propertyName, err)",
+  "return",
+  "}",
+  "switch {",
+  "case prevProp == nil && currentProp != nil:",
+  "op = opInsert",
+  "case prevProp != nil && currentProp != nil:",
+  "op = opUpdate",
+  "case prevProp != nil && currentProp == nil:",
+  "op = opDelete",
+  "case prevProp == nil && currentProp == nil:",
+  "op = opSkip",
+  "default:",
+  "err = fmt.Errorf(\"unexpected previous and current values for %s: %v - %v\", propertyName, prevProp, currentProp)",
+  "}",
+  "return"
+] := rfl
 
 end Sema.C05
